@@ -1237,3 +1237,98 @@ func ruleNumBoundarySyntax(c *Ctx) []Obligation {
 	}
 	return obs
 }
+
+// ---------------------------------------------------------------- LEX.UNQUOTEDEND (hunt/h5/C16)
+
+func init() {
+	register(&Rule{Name: "LEX.UNQUOTEDEND", Props: []string{"C02", "C16"}, Floor: 2,
+		Doc: "an unquoted string ends in front of a comment opener (`//`, `/*`) that follows it directly (RFC 7950 6.1.3): the state that reads one tests the rest of the input for both and emits the token there",
+		Run: ruleLexUnquotedEnd})
+}
+
+func ruleLexUnquotedEnd(c *Ctx) []Obligation {
+	const R = "LEX.UNQUOTEDEND"
+	m, why := c.lexModel()
+	if m == nil {
+		return []Obligation{undecided(R, "lexer model", "-", why)}
+	}
+	if m.unquoted == nil || m.next == nil {
+		return []Obligation{undecided(R, "unquoted-string state", "-", "the state that reads an unquoted string / (*lexer).next not found")}
+	}
+	emit := c.Fn("yang.(*lexer).emit")
+	var obs []Obligation
+	for _, opener := range []string{"//", "/*"} {
+		con := fmt.Sprintf("the unquoted-string state ends the token in front of %q", opener)
+		verdict := ""
+		at := c.Pos(m.unquoted.Pos())
+		c.eachInstrDeep(m.unquoted, func(in ssa.Instruction) {
+			call, isC := in.(*ssa.Call)
+			if !isC || !calleeIs(call, "strings", "HasPrefix") || len(call.Call.Args) != 2 || verdict == "ok" {
+				return
+			}
+			if s, isK := constString(call.Call.Args[1]); !isK || s != opener {
+				return
+			}
+			at = c.InstrPos(call)
+			// the outcome "true" leads to the emit without a rune being consumed on the way
+			consumed := map[*ssa.BasicBlock]bool{}
+			var emits []*ssa.BasicBlock
+			for _, b := range call.Parent().Blocks {
+				for _, in2 := range b.Instrs {
+					if c2, isC2 := in2.(*ssa.Call); isC2 {
+						if c2.Call.StaticCallee() == m.next {
+							consumed[b] = true
+						}
+						if emit != nil && c2.Call.StaticCallee() == emit {
+							emits = append(emits, b)
+						}
+					}
+				}
+			}
+			// the branch on the outcome: its true side is, or leads without a consumed rune to, an emit
+			for _, r := range refsOf(call) {
+				var ifi *ssa.If
+				onTrue := true
+				switch x := r.(type) {
+				case *ssa.If:
+					ifi = x
+				case *ssa.UnOp:
+					if x.Op == token.NOT {
+						for _, rr := range refsOf(x) {
+							if i2, isI := rr.(*ssa.If); isI {
+								ifi, onTrue = i2, false
+							}
+						}
+					}
+				}
+				if ifi == nil {
+					continue
+				}
+				succ := ifi.Block().Succs[0]
+				if !onTrue {
+					succ = ifi.Block().Succs[1]
+				}
+				for _, g := range emits {
+					if consumed[g] {
+						continue
+					}
+					if succ == g || blockReaches(succ, g, consumed) && !consumed[succ] {
+						verdict = "ok"
+					}
+				}
+			}
+			if verdict == "" {
+				verdict = "the test for the opener does not lead to the token being emitted there"
+			}
+		})
+		switch verdict {
+		case "ok":
+			obs = append(obs, ok(R, con, at, "HasPrefix(rest, "+fmt.Sprintf("%q", opener)+") holds on the way to the emit, with no rune consumed in between"))
+		case "":
+			obs = append(obs, bad(R, con, at, "the state ends a token only at a blank, a quote, a semicolon or a brace: `x"+opener+" …` is one token, the comment is never entered and the words in it are read as statements; an unterminated comment behind an argument is reported as a syntax error at a word inside it"))
+		default:
+			obs = append(obs, bad(R, con, at, verdict))
+		}
+	}
+	return obs
+}
